@@ -274,7 +274,8 @@ impl Instant {
             datetime
         } else {
             ixdtf = ixdtf.with_z(DisplayOffset::Auto);
-            TimeZone::default().get_iso_datetime_for(&rounded_instant, provider)?
+            // Without a time zone the reading is the UTC one: no data are needed for it.
+            IsoDateTime::from_epoch_nanos(rounded_instant.epoch_nanoseconds(), 0)?
         };
         let ixdtf_string = ixdtf
             .with_date(datetime.date)
